@@ -101,6 +101,22 @@ def NT(**fields):
     return t
 
 
+def FN(args, ret, raises=False):
+    """a parameter that is a callable: `args` the parameter types, `ret` the result type; `raises`: the call can raise
+    (the parameter is then a function into `M ret`).  DOMAIN: the callable is a function of its arguments (no state)."""
+    return ('fn', tuple(args), ret, bool(raises))
+
+
+class FnSample:
+    """a sample value of a callable parameter: the Python callable and the Lean term that denotes the same function"""
+
+    def __init__(self, py, lean):
+        self.py, self.lean = py, lean
+
+    def __repr__(self):
+        return f'FnSample({self.lean})'
+
+
 def RAISES(t):
     """type of an opaque read that can raise: the parameter of the translation is an `M τ`"""
     return ('raises', t)
@@ -155,6 +171,9 @@ def lean_ty(t):
         return '(' + ' × '.join(lean_ty(x) for x in t[1:]) + ')'
     if t[0] == 'union':
         return f'(Sum {lean_ty(t[1])} {lean_ty(t[2])})'
+    if t[0] == 'fn':
+        res = f'M {lean_ty(t[2])}' if t[3] else lean_ty(t[2])
+        return '(' + ' → '.join([lean_ty(a) for a in t[1]] + [res]) + ')'
     raise Untranslatable(f'type {t!r}')
 
 
@@ -249,9 +268,10 @@ def str_lit(s):
 EXC = {'ValueError': 'valueError', 'KeyError': 'keyError', 'IndexError': 'indexError', 'TypeError': 'typeError',
        'AttributeError': 'attributeError', 'AssertionError': 'assertionError', 'DataOverflowError': 'dataOverflow',
        'UnicodeError': 'unicodeError', 'UnicodeEncodeError': 'unicodeError', 'UnicodeDecodeError': 'unicodeError',
-       'LookupError': 'lookupError', 'ZeroDivisionError': 'zeroDivisionError', 'StopIteration': 'stopIteration'}
+       'LookupError': 'lookupError', 'ZeroDivisionError': 'zeroDivisionError', 'StopIteration': 'stopIteration',
+       'UnboundLocalError': 'unboundLocalError'}
 ALL_EXC = ['valueError', 'dataOverflow', 'indexError', 'keyError', 'typeError', 'attributeError', 'assertionError',
-           'unicodeError', 'lookupError', 'zeroDivisionError', 'stopIteration']
+           'unicodeError', 'lookupError', 'zeroDivisionError', 'stopIteration', 'unboundLocalError']
 # what an `except X` clause catches (X and its subclasses among the modelled classes)
 CATCHES = {'Exception': ALL_EXC, 'BaseException': ALL_EXC,
            'ValueError': ['valueError', 'dataOverflow', 'unicodeError'], 'DataOverflowError': ['dataOverflow'],
@@ -429,6 +449,10 @@ class Tables:
             if isinstance(v, int) and not isinstance(v, bool):
                 return f'(Sum.inl {self.literal(v, INT)})'
             return f'(Sum.inr {self.literal(v, STR)})'
+        if t[0] == 'fn':
+            if not isinstance(v, FnSample):
+                raise Untranslatable(f'value {v!r} is not a function sample')
+            return v.lean
         raise Untranslatable(f'literal of type {t}')
 
     def table(self, qual, v):
@@ -789,12 +813,20 @@ class FnTranslator:
             v = self.lookup(e.id, env, ctx)
             if v is not None and getattr(v, 'partial', False):
                 raise Untranslatable(f'{e.id}: a dict dumped without its str keys used otherwise than by an int subscript')
+            if v is not None and e.id in getattr(self, 'maybe_unbound', ()) and (v.ty == NONE or (isinstance(v.ty, tuple) and v.ty[0] == 'opt')):
+                if v.ty == NONE:
+                    return self.bind(ctx, err('unboundLocalError'), INT)
+                return self.bind(ctx, f'(Py.unbound {v.term})', v.ty[1])
             if v is not None:
                 if v.view is not None:
                     return self.materialise(v, env, ctx)
                 if v.bound is not None or v.fields is not None:
                     raise Untranslatable(f'{e.id} (a bound method / an object) used as a value')
                 return v
+            if self.spec.get('part', 1) >= 3:
+                fv = self.function_value(e.id, env, ctx)
+                if fv is not None:
+                    return fv
             if e.id in self.local_names:
                 raise Untranslatable(f'local {e.id} is not available here (read before assignment, or assigned inside a loop)')
             if e.id in vars(self.module) and not callable(vars(self.module)[e.id]) and e.id not in self.module_aliases:
@@ -861,6 +893,36 @@ class FnTranslator:
             return self.call(e, env, ctx)
         raise Untranslatable(f'expression {src[:60]}')
 
+    def function_value(self, nm, env, ctx):
+        """the name of a function used as a VALUE (round 3): `operator.lt` / `operator.gt`, a translated module-level function, a
+        translated nested function of this function (its closure variables are read here: the caller must not update them
+        afterwards — they are locals that stay as they are in the only use, `find_and_apply_best_mask`)"""
+        import operator
+        ent = self.registry.get(nm)
+        nested_here = ent is not None and ent.get('nested_in') == (self.spec['module'], tuple(self.spec['path']))
+        if nm in self.local_names and not nested_here:
+            return None
+        obj = vars(self.module).get(nm)
+        if not nested_here:
+            if obj is operator.lt:
+                return Val('(fun (a b : Int) => decide (a < b))', FN([INT, INT], BOOL))
+            if obj is operator.gt:
+                return Val('(fun (a b : Int) => decide (a > b))', FN([INT, INT], BOOL))
+            if ent is None or ent.get('nested_in') is not None or not self.resolves_to(nm, obj):
+                return None
+        if ent.get('mutates') or ent.get('opaque') or ent.get('method'):
+            raise Untranslatable(f'{nm} (updates its arguments / has opaque reads / is a method) used as a value')
+        if any(isinstance(ty, CONST) or (isinstance(ty, tuple) and ty[0] == 'obj') for _, ty in ent['params']):
+            raise Untranslatable(f'{nm} (translated for fixed / object parameters) used as a value')
+        pre = []
+        for p, ty in ent.get('closure', []):
+            v = self.lookup(p, env, ctx)
+            if v is None or v.view is not None or v.bound is not None or v.fields is not None:
+                raise Untranslatable(f'closure variable {p} of {nm} is not available where {nm} is used as a value')
+            pre.append(self.coerce(v, ty).term)
+        term = '(' + ' '.join([ent['lean']] + pre) + ')' if pre else ent['lean']
+        return Val(term, FN([ty for _, ty in ent['params']], ent['ret'], raises=ent['monadic']))
+
     def ex_truth(self, e, env, ctx):
         """expression in a truth context (operands of and / or need not be booleans)"""
         if isinstance(e, ast.BoolOp) and ast.unparse(e) not in self.opaque:
@@ -883,6 +945,13 @@ class FnTranslator:
         if BOOL in (a.ty, b.ty) and {a.ty, b.ty} <= {BOOL, INT} and op in (ast.BitXor, ast.BitAnd, ast.BitOr) and a.ty == b.ty:
             sym = {ast.BitXor: '!=', ast.BitAnd: '&&', ast.BitOr: '||'}[op]
             return Val(f'({a.term} {sym} {b.term})', BOOL)
+        if {a.ty, b.ty} == {BOOL, INT} and op in (ast.BitXor, ast.BitAnd, ast.BitOr) and not self.spec.get('legacy') \
+                and self.spec.get('part', 1) >= 3:
+            # int op bool: the bool counts as 0 / 1, the result is an int
+            if a.ty == BOOL:
+                a = Val(f'(if {a.term} then (1 : Int) else (0 : Int))', INT, byte=True)
+            else:
+                b = Val(f'(if {b.term} then (1 : Int) else (0 : Int))', INT, byte=True)
         if a.ty != INT or b.ty != INT:
             raise Untranslatable(f'{type(e.op).__name__} on {a.ty} and {b.ty}')
         if op in (ast.Add, ast.Sub, ast.Mult):
@@ -1251,6 +1320,13 @@ class FnTranslator:
             if local is not None:
                 if local.bound is not None:
                     return self.seq_method(local.bound[0], local.bound[1], e, env, ctx)
+                if isinstance(local.ty, tuple) and local.ty[0] == 'fn' and local.term is not None:
+                    # a declared callable parameter: arguments left to right, then the call
+                    if e.keywords or len(e.args) != len(local.ty[1]) or any(isinstance(a, ast.Starred) for a in e.args):
+                        raise Untranslatable(f'call of the callable {f.id} with other than its {len(local.ty[1])} positional arguments')
+                    args = [self.coerce(self.ex(a, env, ctx), t).term for a, t in zip(e.args, local.ty[1])]
+                    term = '(' + ' '.join([local.term] + args) + ')'
+                    return self.bind(ctx, term, local.ty[2]) if local.ty[3] else Val(term, local.ty[2])
                 raise Untranslatable(f'call of the local {f.id}')
         if isinstance(f, ast.Name) and f.id not in env:
             nm = f.id
@@ -1273,6 +1349,11 @@ class FnTranslator:
                     raise Untranslatable(f'Buffer of a {xs.ty}')
                 self.check_bytes(BUFFER, xs, ctx)
                 return Val(xs.term, BUFFER)
+            if nm == '_Segment' and isinstance(vars(self.module).get(nm), type) and issubclass(vars(self.module)[nm], tuple) \
+                    and not e.keywords and len(e.args) == 4 and self.spec.get('part', 1) >= 3:
+                # the tuple subclass `_Segment(bits, char_count, mode, encoding)`: its four components
+                vs = [self.ex(a, env, ctx) for a in e.args]
+                return Val('(' + ', '.join(v.term for v in vs) + ')', TUPLE(*[v.ty for v in vs]), elts=vs)
             import functools
             import operator
             if nm == 'product' and vars(self.module).get(nm) is itertools.product:
@@ -1575,7 +1656,10 @@ class FnTranslator:
             eq = self.equal(Val(y, elem_ty(ty)), x)
             return self.bind(ctx, f'(Py.indexOf {val.term} (fun {y} => {eq.term}))', INT)
         if method == 'find' and ty in (BYTEARRAY, BUFFER) and 1 <= len(e.args) <= 2:
-            pat = self.to_list(self.ex(e.args[0], env, ctx))
+            pat = self.ex(e.args[0], env, ctx)
+            if pat.ty == INT and pat.byte and self.spec.get('part', 1) >= 3:
+                pat = Val(f'[{pat.term}]', BYTEARRAY, byte=True)        # bytes.find(b) for a byte b: the one-byte pattern
+            pat = self.to_list(pat)
             if elem_ty(pat.ty) != INT:
                 raise Untranslatable('find of a non-bytes pattern')
             start = self.ex(e.args[1], env, ctx) if len(e.args) == 2 else Val(int_lit(0), INT, const=0)
@@ -1725,6 +1809,12 @@ class FnTranslator:
                 return self.bind(ctx, err('typeError'), INT)
             if args[0].ty == FLOAT:
                 return Val(f'(Py.Q.toInt {args[0].term})', INT)
+            oc = self.spec.get('opaque_calls', {}).get('int')
+            if oc is not None and args[0].ty in (BYTEARRAY, LIST(INT)):
+                # `int(<bytes>)` (decimal parsing of a byte string): a declared OPAQUE CALL — the callable parameter `oc[0]`
+                pname, fty = oc
+                term = f'({lean_name(pname)} {args[0].term})'
+                return self.bind(ctx, term, fty[2]) if fty[3] else Val(term, fty[2])
         if nm == 'float' and len(args) == 1 and args[0].ty in (INT, FLOAT):
             return self.as_float(args[0])
         if nm == 'bool' and len(args) == 1:
@@ -2044,6 +2134,17 @@ class FnTranslator:
             b = self.lookup(value.value.id, env, ctx)
             if b is not None and b.fields is None and (b.view is not None or is_seq(b.ty)):
                 return Val(None, NONE, bound=(value.value.id, value.attr))
+        if isinstance(value, ast.Attribute) and value.attr == 'find' and isinstance(value.value, (ast.Attribute, ast.Name)) \
+                and self.spec.get('part', 1) >= 3:
+            # `f = consts.X.find` for a constant byte string X: a bound method of a hidden local that holds the constant
+            try:
+                c = self.ex(value.value, env, Ctx())
+            except (_NeedMonad, _CanRaise, _PhiFail):
+                c = None
+            if c is not None and c.is_const and isinstance(c.const, (bytes, bytearray)):
+                hidden = '_const_' + ''.join(ch if ch.isalnum() else '_' for ch in ast.unparse(value.value))
+                ctx.updates[hidden] = Val(c.term, BYTEARRAY, const=c.const, byte=True)
+                return Val(None, NONE, bound=(hidden, 'find'))
         if isinstance(value, ast.Name):
             y = self.lookup(value.id, env, ctx)
             if y is not None and (y.view is not None or y.bound is not None):
@@ -2410,6 +2511,8 @@ class FnTranslator:
                 if n in rebound:
                     raise Untranslatable(f'{n} (a view / bound method) is rebound inside a loop or try body')
                 continue
+            if isinstance(v.ty, tuple) and v.ty and v.ty[0] == 'fn' and n not in rebound:
+                continue            # a callable is a value: calling it is not an update
             names.append(n)
         return names
 
@@ -2604,10 +2707,49 @@ class FnTranslator:
         targets = [s.target] if isinstance(s.target, ast.Name) else list(s.target.elts) if isinstance(s.target, ast.Tuple) else []
         tnames = {t.id for t in targets if isinstance(t, ast.Name)}
         if tnames & self.assigned(s.body):
-            raise Untranslatable('loop variable assigned in the body')
+            # the body rebinds its own loop variable (`right -= 1`): a local of ONE iteration, the next item of the
+            # iterable overwrites it; allowed for a plain name over integers outside the legacy parts
+            if not (isinstance(s.target, ast.Name) and elem_ty(xs.ty) == INT and self.spec.get('part', 1) >= 3):
+                raise Untranslatable('loop variable assigned in the body')
         pat, env_t = self.bind_target(s.target, elem_ty(xs.ty), {}, byte=xs.byte)
         if isinstance(s.target, ast.Name):
             pat = f'({env_t[s.target.id].term} : {lean_ty(elem_ty(xs.ty))})'
+        if self.spec.get('part', 1) >= 3 and not self.loops:
+            # a local that is FIRST assigned inside this (outermost) loop and read after it: unbound until an iteration
+            # assigns it.  It joins the loop state as an Option (`none` = unbound); every read goes through `Py.unbound`
+            # (UnboundLocalError).  Refused when the body may assign None to it (None and "unbound" would be confused).
+            body_nodes = list(ast.walk(ast.Module(body=s.body, type_ignores=[])))
+            inside = {id(n) for n in body_nodes}
+            direct = {t.id for n in body_nodes if isinstance(n, ast.Assign) for tt in n.targets
+                      for t in ([tt] if isinstance(tt, ast.Name) else tt.elts if isinstance(tt, ast.Tuple) else []) if isinstance(t, ast.Name)}
+            first_here = sorted(n for n in direct if n not in env and n not in tnames)
+            def assigning_loops(nm):
+                # ids of all nodes inside a `for` body (anywhere in the function) that assigns `nm` directly
+                ids = set()
+                for f in ast.walk(self.fn):
+                    if isinstance(f, ast.For):
+                        sub = list(ast.walk(ast.Module(body=f.body, type_ignores=[])))
+                        if any(isinstance(n, ast.Assign) and any(isinstance(t, ast.Name) and t.id == nm for tt in n.targets
+                                                                  for t in ([tt] if isinstance(tt, ast.Name) else getattr(tt, 'elts', [])))
+                               for n in sub):
+                            ids |= {id(n) for n in sub}
+                return ids
+            for nm in first_here:
+                covered = inside | assigning_loops(nm)
+                if not any(isinstance(n, ast.Name) and isinstance(n.ctx, ast.Load) and n.id == nm and id(n) not in covered
+                           for n in ast.walk(self.fn)):
+                    continue
+                for n in body_nodes:
+                    if isinstance(n, ast.Assign) and any(isinstance(t, ast.Name) and t.id == nm for t in n.targets) \
+                            and not isinstance(n.value, (ast.Name, ast.Constant, ast.BinOp)):
+                        raise Untranslatable(f'{nm} is first assigned inside a loop (by something else than a name / number) and read after it')
+                    if isinstance(n, ast.Assign) and any(isinstance(t, ast.Name) and t.id == nm for t in n.targets) \
+                            and isinstance(n.value, ast.Constant) and n.value.value is None:
+                        raise Untranslatable(f'{nm} is first assigned inside a loop, possibly None, and read after it')
+                    if isinstance(n, (ast.AugAssign, ast.For)) and any(isinstance(t, ast.Name) and t.id == nm for t in ast.walk(n.target)):
+                        raise Untranslatable(f'{nm} is first assigned inside a loop by an augmented assignment / as a loop variable and read after it')
+                env = {**env, nm: Val('()', NONE, const=None)}
+                self.maybe_unbound.add(nm)
         src = xs.term
         # the loop variable keeps its last value in Python; it is not available afterwards here
         return self.run_loop(s.body, env, cont, ctx, src, pat, env_t, tnames)
@@ -2633,6 +2775,8 @@ class FnTranslator:
                 env[nm] = Val(lean_name(nm), ty)
         for src, (nm, ty) in self.opaque.items():
             params.append((nm, ty))
+        for src, (nm, ty) in spec.get('opaque_calls', {}).items():
+            params.append((nm, ty))
         declared = [a.arg for a in self.fn.args.posonlyargs + self.fn.args.args + self.fn.args.kwonlyargs]
         if self.fn.args.vararg or self.fn.args.kwarg:
             raise Untranslatable('*args / **kwargs')
@@ -2645,6 +2789,7 @@ class FnTranslator:
             raise Untranslatable(f'parameters are {declared}, the translation is specified for {want}')
         for mode in (False, True):
             self.monadic, self.counter, self.size, self.loops, self.ret_byte = mode, {}, 0, [], not self.mutates
+            self.maybe_unbound = set()
             try:
                 term = self.block(self.fn.body, env, self.k_end)
                 break
@@ -2726,6 +2871,8 @@ class Translation:
             doc.append(f'translated for {dom} -> {describe(spec["ret"])}' + (' (can raise)' if monadic else ''))
             for src, (nm, ty) in spec.get('opaque', {}).items():
                 doc.append(f'parameter `{nm}` stands for the value of `{src}`')
+            for src, (nm, ty) in spec.get('opaque_calls', {}).items():
+                doc.append(f'parameter `{nm}` stands for the builtin `{src}` applied to a byte string')
             for nm, ty in spec['params'].items():
                 if isinstance(ty, tuple) and ty[0] == 'obj':
                     for fnm, fty in ty[1]:
@@ -2771,6 +2918,7 @@ class Translation:
     def add_check(self, spec, params, monadic, ret_ty=None):
         """evaluate the real function on sample arguments and state the results as kernel-checked examples"""
         ret_ty = spec['ret'] if ret_ty is None else ret_ty
+        ret_ty = spec.get('check_ret', ret_ty)
         call = spec.get('pycall')
         mod = self.modules[spec['module']]
         mutates = list(spec.get('mutates', []))
@@ -2786,8 +2934,9 @@ class Translation:
             else:
                 all_params.append((nm, ty))
         all_params += [(nm, ty) for nm, ty in spec.get('opaque', {}).values()]
+        all_params += [(nm, ty) for nm, ty in spec.get('opaque_calls', {}).values()]
         pools = []
-        for nm, ty in all_params:
+        for nm, ty in (all_params if spec.get('nsamples', 96) != 0 else []):
             if nm in spec.get('samples', {}):
                 pools.append(spec['samples'][nm])
             elif isinstance(ty, CONST):
@@ -2799,7 +2948,9 @@ class Translation:
             total *= len(p)
         rnd = random.Random(20260930)
         limit = spec.get('nsamples', 96)
-        if total <= limit:
+        if limit == 0:
+            combos = []
+        elif total <= limit:
             combos = list(itertools.product(*pools))
         else:
             combos = [tuple(rnd.choice(p) for p in pools) for _ in range(limit)]
@@ -2827,7 +2978,12 @@ class Translation:
                     raise Untranslatable(f'{spec["name"]}({str(kwargs)[:300]}) raised {cls}, which the translation cannot produce')
                 res = err(EXC[cls])
             args = [self.tables.literal(v, ty) for (nm, ty), v in zip(all_params, combo) if not isinstance(ty, CONST)]
-            lhs.append('(' + ' '.join([lean] + args) + ')' if args else lean)
+            call_term = '(' + ' '.join([lean] + args) + ')' if args else lean
+            if spec.get('check_wrap'):
+                # the result is not a first-order value (functions): it is observed through the Lean function `check_wrap`
+                # (and `pycall` returns what the same observation gives in Python)
+                call_term = f'({spec["check_wrap"]} {call_term})'
+            lhs.append(call_term)
             rhs.append(res)
         rty = lean_ty(ret_ty)
         rty = f'M {rty}' if monadic else rty
@@ -2839,10 +2995,11 @@ class Translation:
 
     # ---------------------------------------------------------------- output
     def funcs_text(self, part=1):
-        imp, ns = ('Gen.Py', 'Gen.Funcs') if part == 1 else ('Gen.Py2\nimport Gen.Funcs', 'Gen.Funcs2')
+        imp, ns = ('Gen.Py', 'Gen.Funcs') if part == 1 else ('Gen.Py2\nimport Gen.Funcs', 'Gen.Funcs2') if part == 2 else \
+            ('Gen.Funcs2', 'Gen.Funcs3')
         out = ['-- GENERATED by tools/gen.py (tools/pytolean.py: AST translation of the repository working tree). DO NOT EDIT.',
                f'import {imp}', '', 'set_option linter.unusedVariables false', '', f'namespace {ns}',
-               'open Gen.Py' + (' Gen.Funcs' if part == 2 else ''), '']
+               'open Gen.Py' + (' Gen.Funcs' if part == 2 else ' Gen.Funcs Gen.Funcs2' if part == 3 else ''), '']
         for nm in self.tables.order:
             if self.part_of_table.get(nm, 1) == part:
                 out += [self.tables.defs[nm][1], '']
@@ -2856,7 +3013,8 @@ class Translation:
         """the validation examples of `part`; with `shards` > 1 they are spread over several files (built in parallel):
         shard k gets the k-th share, `shard=None` is the root file importing the shares"""
         imp, ns, op = ('Gen.Funcs', 'Gen.FuncsCheck', 'Gen.Py Gen.Funcs') if part == 1 else \
-            ('Gen.Funcs2', 'Gen.Funcs2Check', 'Gen.Py Gen.Funcs Gen.Funcs2')
+            ('Gen.Funcs2', 'Gen.Funcs2Check', 'Gen.Py Gen.Funcs Gen.Funcs2') if part == 2 else \
+            ('Gen.Funcs3', 'Gen.Funcs3Check', 'Gen.Py Gen.Funcs Gen.Funcs2 Gen.Funcs3')
         head = ['-- GENERATED by tools/gen.py (tools/pytolean.py). DO NOT EDIT.',
                 '-- Translation validation: what the real Python functions returned at generation time on sample arguments,',
                 '-- compared by the Lean kernel with what the translated functions compute.']
@@ -2897,6 +3055,8 @@ def to_python(v, ty, module):
         return collections.namedtuple('NT', ty.fields)(*v)
     if isinstance(ty, tuple) and ty[0] == 'list':
         return list(v)
+    if isinstance(v, FnSample):
+        return v.py
     return v
 
 
@@ -2935,6 +3095,8 @@ def describe(ty):
         return f'{describe(ty[1])} or an exception'
     if ty[0] == 'obj':
         return f'{ty[2]} object'
+    if ty[0] == 'fn':
+        return 'function (' + ', '.join(describe(a) for a in ty[1]) + ') -> ' + describe(ty[2]) + (' that can raise' if ty[3] else ' that cannot raise')
     return str(ty)
 
 
@@ -2963,6 +3125,8 @@ def sample_pool(ty):
         rnd = random.Random(11)
         inner = sample_pool(ty[1])
         return [[]] + [[rnd.choice(inner) for _ in range(rnd.randint(1, 5))] for _ in range(10)]
+    if ty[0] == 'fn':
+        return []           # callables are sampled through explicit `cases` (FnSample) only
     raise Untranslatable(f'no samples for {ty}')
 
 
@@ -3076,6 +3240,7 @@ def segno_specs(mods, trees):
     for s in specs:
         s['legacy'] = True      # round 1: translated exactly as in round 1 (Props.TieA quotes these terms)
     specs += segno_specs2(mods, trees, versions, levels)
+    specs += segno_specs3(mods, trees, versions, levels)
     for s in specs:
         s['name'] = s['path'][-1]
     return specs
@@ -3206,6 +3371,188 @@ def segno_specs2(mods, trees, versions, levels):
     return specs
 
 
+def segno_specs3(mods, trees, versions, levels):
+    """round 3 (Gen/Funcs3.lean): the links between the regenerated pieces and `_encode`: data masking (`apply_mask` with
+    the `is_encoding_region` closure of `find_and_apply_best_mask`) and module placement (`add_codewords`)"""
+    enc, consts = mods['encoder'], mods['consts']
+    MAT = LIST(BYTEARRAY)
+    rnd = random.Random(5)
+
+    def rand_matrix(n, top=1):
+        return [[rnd.randint(0, top) for _ in range(n)] for _ in range(n)]
+
+    def lean_matrix(m):
+        return '[' + ', '.join('[' + ', '.join(str(x) for x in row) + ']' for row in m) + ']'
+
+    def region(fm):
+        """`is_encoding_region` over the function matrix `fm`, as a Python closure and as the Lean term it denotes (the
+        translation of the nested function applied to `fm`)"""
+        return FnSample(lambda i, j, fm=fm: fm[i][j] > 0x1, f'(is_encoding_region {lean_matrix(fm)})')
+    patterns = enc.get_data_mask_functions(False)
+    mask_terms = ['(fun i j => decide (Py.band (i + j) 1 = 0))', '(fun i _ => decide (Py.band i 1 = 0))', '(fun _ j => decide (j % 3 = 0))',
+                  '(fun i j => decide ((i + j) % 3 = 0))']
+
+    def mask(k):
+        return FnSample(patterns[k], mask_terms[k])
+
+    def region_call(a):
+        f = nested_callable(enc, trees['encoder'], ['find_and_apply_best_mask', 'is_encoding_region'],
+                            dict(function_matrix=[bytearray(r) for r in a['function_matrix']]))
+        return f(a['i'], a['j'])
+    fm5, fm7 = rand_matrix(5, 2), rand_matrix(7, 2)
+    specs = [
+        dict(module='encoder', path=['find_and_apply_best_mask', 'is_encoding_region'], params={'i': INT, 'j': INT},
+             closure={'function_matrix': MAT}, ret=BOOL,
+             samples={'function_matrix': [fm5], 'i': [-6, -5, -1, 0, 1, 2, 4, 5], 'j': [-6, -1, 0, 3, 4, 5]}, nsamples=48, pycall=region_call),
+        dict(module='encoder', path=['apply_mask'],
+             params={'matrix': MAT, 'mask_pattern': FN([INT, INT], BOOL), 'width': INT, 'height': INT,
+                     'is_encoding_region': FN([INT, INT], BOOL, raises=True)},
+             ret=NONE, mutates=['matrix'],
+             cases=[(rand_matrix(5), mask(0), 5, 5, region(fm5)), (rand_matrix(7), mask(1), 7, 7, region(fm7)),
+                    (rand_matrix(7), mask(2), 7, 7, region(fm7)), (rand_matrix(5), mask(3), 5, 5, region(fm5)),
+                    (rand_matrix(5), mask(0), 6, 5, region(fm5)), (rand_matrix(5), mask(0), 5, 6, region(fm7)),
+                    (rand_matrix(7), mask(3), 5, 4, region(fm5)), ([], mask(0), 0, 0, region(fm5)), ([], mask(0), 3, 1, region(fm5))],
+             nsamples=0, group=3),
+    ]
+    bits = [rnd.randint(0, 1) for _ in range(400)]
+
+    def blank(n, holes):
+        """an n × n matrix of function modules (0 / 1) with `holes` cells still undefined (2)"""
+        m = rand_matrix(n)
+        cells = [(i, j) for i in range(n) for j in range(n)]
+        rnd.shuffle(cells)
+        for i, j in cells[:holes]:
+            m[i][j] = 2
+        return m
+    specs += [
+        dict(module='encoder', path=['add_codewords'], params={'matrix': MAT, 'codewords': BUFFER, 'version': INT},
+             ret=NONE, mutates=['matrix'],
+             cases=[(blank(11, 36), bits[:36], -3), (blank(13, 50), bits[:50], -2), (blank(15, 60), bits[:60], -1), (blank(9, 30), bits[:30], 0),
+                    (blank(11, 40), bits[:40], 1), (blank(12, 40), bits[:40], 1), (blank(9, 20), bits[:25], 1), (blank(9, 20), bits[:15], -3),
+                    ([], [], 1), ([], [1], -1), (blank(7, 20)[:5], bits[:20], 1)],
+             nsamples=0, group=4),
+    ]
+    # ---- the data mask conditions and their tuple, the mask search
+    grid = [(i, j) for i in (0, 1, 2, 3, 5, 6, 20) for j in (0, 1, 2, 4, 7, 9)]
+    coords = [0, 1, 2, 3, 4, 5, 6, 7, 11, 12, 20, 176, -1, -3, -6]
+
+    def fn_call(k):
+        return lambda a: nested_callable(enc, trees['encoder'], ['get_data_mask_functions', f'fn{k}'], {})(a['i'], a['j'])
+    specs += [dict(module='encoder', path=['get_data_mask_functions', f'fn{k}'], params={'i': INT, 'j': INT}, ret=BOOL,
+                   samples={'i': coords, 'j': coords}, nsamples=60, group=60, pycall=fn_call(k)) for k in range(8)]
+    obs = '(fun fs => fs.map (fun f => [' + ', '.join(f'f {i} {j}' for i, j in grid) + ']))'
+    specs += [
+        dict(module='encoder', path=['get_data_mask_functions'], params={'is_micro': BOOL}, ret=LIST(FN([INT, INT], BOOL)),
+             check_wrap=obs, check_ret=LIST(LIST(BOOL)),
+             pycall=lambda a: [[f(i, j) for i, j in grid] for f in enc.get_data_mask_functions(a['is_micro'])]),
+    ]
+
+    def best_mask_call(a):
+        import unittest.mock
+        with unittest.mock.patch.object(enc, 'make_matrix', lambda w, h: [bytearray(r) for r in a['function_matrix0']]):
+            r = enc.find_and_apply_best_mask(a['matrix'], a['width'], a['height'], a['proposed_mask'])
+        return (r[0], None if r[1] is None else [bytearray(x) for x in r[1]])
+
+    def fm0(n):
+        return [list(r) for r in enc.make_matrix(n, n)]
+
+    def symbol(n):
+        m = fm0(n)
+        mm = [bytearray(r) for r in m]
+        enc.add_finder_patterns(mm, n, n)
+        enc.add_alignment_patterns(mm, n, n)
+        return [[rnd.randint(0, 1) if x == 2 else x for x in r] for r in mm]
+    specs += [
+        dict(module='encoder', path=['find_and_apply_best_mask'],
+             params={'matrix': MAT, 'width': INT, 'height': INT, 'proposed_mask': OPT(INT)}, ret=TUPLE(INT, OPT(MAT)), mutates=['matrix'],
+             opaque={'make_matrix(width, height)': ('function_matrix0', MAT)},
+             cases=[(symbol(11), 11, 11, None, fm0(11)), (symbol(13), 13, 13, 2, fm0(13)), (symbol(11), 11, 11, 4, fm0(11)),
+                    (symbol(21), 21, 21, 5, fm0(21)), (symbol(21), 21, 21, 8, fm0(21)), (symbol(11), 11, 11, -1, fm0(11)),
+                    (symbol(15), 15, 15, None, fm0(15))],
+             # (no sample of the search over a QR Code: eight `mask_scores` of a 21 × 21 matrix cost the kernel ≈ 50 s; that path is
+             # covered by the tie `find_and_apply_best_mask_tie` and by the samples of `evaluate_mask`)
+             nsamples=0, group=2, pycall=best_mask_call),
+    ]
+    # ---- the data bit stream of one segment
+    import types
+
+    def write_segment_call(a):
+        import unittest.mock
+        seg = types.SimpleNamespace(mode=a['mode'], encoding=a['encoding'], char_count=a['char_count'], bits=tuple(a['bits']))
+
+        def eci_number(encoding):
+            r = a['eci_number']
+            if isinstance(r, tuple) and r[0] == 'raise':
+                raise ValueError('x')
+            return r
+        with unittest.mock.patch.object(enc, 'get_eci_assignment_number', eci_number):
+            return enc.write_segment(a['buff'], seg, a['ver'], a['ver_range'], a['eci'])
+    specs += [
+        dict(module='encoder', path=['write_segment'],
+             params={'buff': BUFFER, 'segment': OBJ('_Segment', mode=INT, encoding=OPT(STR), char_count=INT, bits=BUFFER),
+                     'ver': OPT(INT), 'ver_range': INT, 'eci': BOOL},
+             ret=NONE, mutates=['buff'],
+             opaque={'get_eci_assignment_number(segment.encoding)': ('eci_number', RAISES(INT))},
+             samples={'buff': [[], [1, 0, 1]], 'mode': [1, 2, 4, 8, 13, 3, 7], 'encoding': [None, 'iso-8859-1', 'utf-8'],
+                      'char_count': [0, 1, 5, 300], 'bits': [[], [1, 0, 0, 1]], 'ver': [None, -3, -2, -1, 0], 'ver_range': [-3, -2, -1, 0, 1, 2, 3, 9],
+                      'eci_number': [26, 3, ('raise', 'ValueError')]},
+             nsamples=160, group=40, pycall=write_segment_call),
+    ]
+    def make_segment_call(a):
+        import unittest.mock
+
+        def conv(data, encoding):
+            r = a['converted']
+            if isinstance(r, tuple) and len(r) == 2 and r[0] == 'raise':
+                raise ValueError('x')
+            return bytes(r[0]), r[1], r[2]
+
+        class B(bytes):
+            pass
+        real_int = int
+
+        def int_of(x, *rest):
+            if isinstance(x, (bytes, bytearray)) and not rest:
+                return a['int_of'](list(x))
+            return real_int(x, *rest)
+        with unittest.mock.patch.object(enc, 'data_to_bytes', conv), unittest.mock.patch.object(enc, 'find_mode', lambda d: a['guessed']), \
+                unittest.mock.patch.object(enc, 'int', int_of, create=True):
+            seg = enc.make_segment(a['data'], a['mode'], a['encoding'])
+        return (list(seg.bits), seg.char_count, seg.mode, seg.encoding)
+
+    def digits(xs):
+        if not xs or any(not 48 <= b <= 57 for b in xs):
+            raise ValueError('x')
+        return real_value(xs)
+
+    def real_value(xs):
+        v = 0
+        for b in xs:
+            v = v * 10 + b - 48
+        return v
+    int_sample = FnSample(digits, '(fun xs => if xs.isEmpty || xs.any (fun b => decide (b < 48 ∨ b > 57)) then Except.error PyExc.valueError '
+                          'else Except.ok (xs.foldl (fun acc b => acc * 10 + (b - 48)) 0))')
+    datas = [([0x31, 0x32, 0x33, 0x34, 0x35], 1), ([0x41, 0x42, 0x20, 0x39, 0x3a], 2), ([0x41, 0x42, 0x31, 0x24], 2), ([0x61, 0x62, 0xe4], 4),
+             ([0x93, 0x5f, 0xe4, 0xaa], 8), ([0xb0, 0xa1, 0xd7, 0xfa], 13), ([], 1), ([0x37], 1), ([0x81, 0x40, 0x31], 4), ([0xa1, 0xa1, 0xaa, 0xff], 13),
+             ([0x93, 0x5f, 0xe4, 0x3f], 8), ([0x31, 0x61], 1)]
+    specs += [
+        dict(module='encoder', path=['make_segment'], params={'data': STR, 'mode': OPT(INT), 'encoding': OPT(STR)},
+             ret=TUPLE(BYTEARRAY, INT, INT, OPT(STR)),
+             opaque={'data_to_bytes(data, encoding)': ('converted', RAISES(TUPLE(BYTEARRAY, INT, STR))),
+                     'find_mode(segment_data)': ('guessed', INT)},
+             opaque_calls={'int': ('int_of', FN([BYTEARRAY], INT, raises=True))},
+             cases=[('x', md, enc_name, (d, len(d), 'utf-8'), g, int_sample)
+                    for d, g in datas for md in (None, g, 4, 1) for enc_name in (None,)] +
+                   [('x', None, 'utf-8', ('raise', 'ValueError'), 4, int_sample), ('x', 13, None, ([0xb0, 0xa1, 0xd7], 3, 'gb2312'), 4, int_sample),
+                    ('x', 8, None, ([0x93, 0x5f], 2, 'shift_jis'), 8, int_sample), ('x', 2, None, ([0x41, 0x42, 0x43], 3, 'iso-8859-1'), 2, int_sample)],
+             nsamples=0, group=13, pycall=make_segment_call),
+    ]
+    for s in specs:
+        s['part'] = 3
+        s.setdefault('decide', 'decide +kernel')
+    return specs
+
+
 def parity_with(enc, a):
     """`calc_structured_append_parity(content)` with the three `content.encode(…)` reads replaced by the given outcomes"""
     outcomes = {'iso-8859-1': a['latin1'], 'shift-jis': a['sjis'], 'utf-8': a['utf8']}
@@ -3226,6 +3573,7 @@ def find_mode_with(enc, a):
         return enc.find_mode(bytes(a['data']))
 
 
+CHECK_SHARDS3 = 2     # Gen/Funcs3Check1.lean, Gen/Funcs3Check2.lean: round 3
 CHECK_SHARDS = 4      # Gen/Funcs2Check1.lean … : the validation examples of round 2, built in parallel
 
 
@@ -3254,4 +3602,8 @@ def generate(repo, leandir, write_if_changed, modules):
                write_if_changed(os.path.join(leandir, 'Gen', 'Funcs2Check.lean'), tr.check_text(2, None, CHECK_SHARDS))]
     for k in range(CHECK_SHARDS):
         changed.append(write_if_changed(os.path.join(leandir, 'Gen', f'Funcs2Check{k + 1}.lean'), tr.check_text(2, k, CHECK_SHARDS)))
+    changed += [write_if_changed(os.path.join(leandir, 'Gen', 'Funcs3.lean'), tr.funcs_text(3)),
+                write_if_changed(os.path.join(leandir, 'Gen', 'Funcs3Check.lean'), tr.check_text(3, None, CHECK_SHARDS3))]
+    for k in range(CHECK_SHARDS3):
+        changed.append(write_if_changed(os.path.join(leandir, 'Gen', f'Funcs3Check{k + 1}.lean'), tr.check_text(3, k, CHECK_SHARDS3)))
     return changed, tr.report
